@@ -30,6 +30,7 @@ var c12Space = mkSpace("attribute-query", []fieldDim{
 	// (the 15 separator-collision lists are crossed with the user shape "sep-names" in the list x record product below)
 	{"User", []string{"", "no-email", "only-username", "no-custom", "two-custom", "custom-novalues", "custom-named-email", "sep-names"}},
 	{"Prefix", []string{"", "default", "odd"}},
+	{"Dirty", []string{"", "failed-writes"}},
 	{"IssuerCfg", []string{"", "host"}},
 	{"AttrEp", []string{"", "custom", "external"}},
 	{"SPCert", []string{"", "none"}},
